@@ -46,11 +46,11 @@ def gen_cases(tier, seed):
     for _ in range(8 if tier == "quick" else 80):
         ops = []
         for _ in range(4):
-            want = rng.choice([-1, -1, 0x1000, 0x2310])
+            want = rng.choice([-1, -1, 0x1000, 0x2310, 0, 0])      # 0 = waiting for the error-reset code
             feed = []
             for _ in range(rng.randrange(0, 4)):
                 f = frame(rng)
-                if want >= 0 and rng.random() < 0.5:
+                if want >= 0 and rng.random() < 0.4:
                     f[0], f[1] = want & 0xFF, want >> 8
                 feed.append([f, rng.randrange(1, 10000)])
             will_match = any(want < 0 or (f[0] | f[1] << 8) == want for f, _ in feed)
